@@ -31,13 +31,15 @@ SHAPES = (
     ("non-ascii", "dïr/été.EXT"), ("blank-in-name", "sub/a b.EXT"), ("other-extension", "sub/x.EXT.bak"),
     ("dotted-dir-no-extension", "my.dir/x"),
 )
-PRIOR = ("fresh", "over-a-longer-file", "over-a-shorter-file", "saved-twice")
+PRIOR = ("fresh", "over-a-longer-file", "over-a-shorter-file", "saved-twice",
+         # near-copies of what is about to be written (the file went through another tool, or holds the previous version of the same data):
+         "over-a-crlf-copy", "over-a-cr-copy", "over-a-copy-with-bom", "over-a-copy-with-one-character-changed", "over-a-copy-with-a-blank-line-added")
 DIRS = ("sub", "my.dir", "dïr", "ref")
 
 
 def _tg():
     tg = Textgrid(0.0, 3.0)
-    tg.addTier(IT("words", [(0.0, 1.0, "a"), (1.5, 2.0, 'b "q"'), (2.0, 3.0, "é")], 0.0, 3.0))
+    tg.addTier(IT("words", [(0.0, 1.0, "a\nsecond line"), (1.5, 2.0, 'b "q"'), (2.0, 3.0, "é")], 0.0, 3.0))
     tg.addTier(PT("clicks", [(0.5, "x"), (2.5, "y")], 0.0, 3.0))
     return tg
 
@@ -142,6 +144,15 @@ def _check(case):
                 fd.write(want[: len(want) // 3])
         elif prior == "saved-twice":
             call(writer, path)
+        elif prior.startswith("over-a-c"):
+            near = {"over-a-crlf-copy": lambda b: b.replace(b"\n", b"\r\n"),
+                    "over-a-cr-copy": lambda b: b.replace(b"\n", b"\r"),
+                    "over-a-copy-with-bom": lambda b: b"\xef\xbb\xbf" + b,
+                    "over-a-copy-with-one-character-changed": lambda b: b[:len(b) // 2] + (b"#" if b[len(b) // 2:len(b) // 2 + 1] != b"#" else b"%") + b[len(b) // 2 + 1:],
+                    "over-a-copy-with-a-blank-line-added": lambda b: b + b"\n"}[prior](want)
+            with io.open(path, "wb") as fd:
+                fd.write(near)
+            os.utime(path, (os.stat(ref).st_atime, os.stat(ref).st_mtime))     # ... with the time stamp of the reference file
         st, r, out = call(writer, path)
         if st == "exc":
             viols.append(Viol("write-raised:" + type(r).__name__, f"{tag}: {r!r}"))
@@ -241,7 +252,8 @@ def part(prop):
             yield from _refused_cases()
     return InputPart("path-shapes-and-existing-files", gen, _dispatch,
                      rule="%d writer(s) x %d path shapes (bare name, ./, sub-directory, dots in the directory or the stem, no / another extension, "
-                          "hidden, absolute, .., non-ASCII, blank) x the path being fresh / holding a longer file / a shorter file / the same save: "
+                          "hidden, absolute, .., non-ASCII, blank) x the path being fresh / holding a longer file / a shorter file / the same save / a near-copy of the new "
+                          "content (CR LF or CR line ends, a byte-order mark, one character changed at the same length and time stamp, a blank line added): "
                           "same bytes as at a plain absolute path, exactly one file at exactly that path, reading through the path agrees, a "
                           "relative path follows the working directory; refused saves leave the directory untouched" % (len(ks), len(SHAPES)),
                      bounds={"writers": len(ks), "shapes": len(SHAPES), "prior_states": len(PRIOR)}, chunk=4)
